@@ -813,7 +813,7 @@ Proof.
   change (p_to_bsf (sites rows cols (path_op a) (path_sites a rs cs) (new_pauli rows cols)))
     with (gop inb fl N (path_op a) (path_sites a rs cs)).
   pose proof (bsf_wt_gop_le inb fl N (path_op a) (path_sites a rs cs) (path_op_not_I a)) as H.
-  rewrite <- path_sites_length. lia.
+  rewrite <- (path_sites_length a rs cs). lia.
 Qed.
 
 (* C15: the virtual plaquette of a real plaquette is just outside the nearer boundary of its own lattice
@@ -868,7 +868,8 @@ Proof.
   - rewrite lx_sites_eq, map_length, seq_length. lia.
   - intros a Ha. rewrite lx_sites_eq in Ha. apply in_map_iff in Ha. destruct Ha as (i & <- & Hi). apply in_seq in Hi.
     rewrite inb_unfold. cbn [fst snd]. lia.
-  - rewrite lx_sites_eq. apply NoDup_map_inj_in; [|apply seq_NoDup]. intros x y _ _ H. injection H. lia.
+  - rewrite lx_sites_eq. apply NoDup_map_inj_in; [|apply seq_NoDup]. intros x y _ _ H.
+    apply (f_equal fst) in H. cbn [fst] in H. lia.
 Qed.
 Theorem planar_logical_z_weight : Z.of_nat (bsf_wt lzop) = cols.
 Proof.
@@ -876,7 +877,8 @@ Proof.
   - rewrite lz_sites_eq, map_length, seq_length. lia.
   - intros a Ha. rewrite lz_sites_eq in Ha. apply in_map_iff in Ha. destruct Ha as (i & <- & Hi). apply in_seq in Hi.
     rewrite inb_unfold. cbn [fst snd]. lia.
-  - rewrite lz_sites_eq. apply NoDup_map_inj_in; [|apply seq_NoDup]. intros x y _ _ H. injection H. lia.
+  - rewrite lz_sites_eq. apply NoDup_map_inj_in; [|apply seq_NoDup]. intros x y _ _ H.
+    apply (f_equal snd) in H. cbn [snd] in H. lia.
 Qed.
 
 (* a product of stabilizers commutes with every operator that commutes with all stabilizers, so a logical that
@@ -926,5 +928,5 @@ Theorem planar_distance_upper :
   (Z.of_nat (bsf_wt lxop) = d \/ Z.of_nat (bsf_wt lzop) = d) /\
   d <= Z.of_nat (bsf_wt lxop) /\ d <= Z.of_nat (bsf_wt lzop).
 Proof.
-  cbn. rewrite planar_logical_x_weight, planar_logical_z_weight. lia.
+  unfold planar_n_k_d. cbv beta iota zeta. rewrite planar_logical_x_weight, planar_logical_z_weight. lia.
 Qed.
